@@ -353,6 +353,32 @@ func c08Gates(m *MClaims, c psatoken.IClaims, kp keyPair, st *Stats, extRuleBrok
 			}
 		}
 	}
+	// the same signed material in other ENVELOPES (no tag, another tag, one
+	// more tag around it, indefinite-length array): the validating gate takes
+	// nothing the plain decoder refuses, and nothing whose claims do not validate
+	if n, _, rerr := icbor.Read(cwt); rerr == nil && n.Kind == icbor.KTag && n.Items != nil && len(n.Items) == 1 {
+		arr := n.Items[0]
+		for name, env := range map[string][]byte{
+			"untagged":       icbor.Encode(arr),
+			"tag-17":         icbor.Encode(icbor.Tag(17, arr)),
+			"tag-98":         icbor.Encode(icbor.Tag(98, arr)),
+			"tag-61-outside": icbor.Encode(icbor.Tag(61, n)),
+			"tag-55799":      icbor.Encode(icbor.Tag(55799, n)),
+			"indefinite":     icbor.Encode(icbor.Tag(18, arr.WithIndef())),
+		} {
+			ep, perr := psatoken.DecodeEvidenceFromCOSE(env)
+			ev, verr := psatoken.DecodeAndValidateEvidenceFromCOSE(env)
+			if verr == nil && perr != nil {
+				return fmt.Sprintf("DecodeAndValidateEvidenceFromCOSE accepts the %s form of a token, which the plain decoder rejects (%v)", name, perr)
+			}
+			if verr == nil && (ev == nil || ev.Claims == nil || ev.Claims.Validate() != nil) {
+				return fmt.Sprintf("DecodeAndValidateEvidenceFromCOSE accepts the %s form of a token whose claims do not validate", name)
+			}
+			if perr == nil && (verr == nil) != (ep.Claims.Validate() == nil) {
+				return fmt.Sprintf("DecodeAndValidateEvidenceFromCOSE (%s form): err=%v, Validate() of the plainly decoded claims=%v", name, verr, ep.Claims.Validate())
+			}
+		}
+	}
 	st.Class("gate=DecodeCOSE")
 	return ""
 }
